@@ -226,7 +226,7 @@ func storedValues(a *E3, fn *ssa.Function, targetPred func(O) bool) []storedValu
 					}
 					for _, cal := range a.Callees(cc) {
 						s := a.sum[cal]
-						if s == nil || !s.MutRecv || cal.Pkg != a.pkg {
+						if s == nil || !s.MutRecv || !a.inPkg(cal) {
 							continue
 						}
 						args := callArgs(cc)
@@ -670,7 +670,7 @@ func cloneShape(a *E3, ct *Cont, fn *ssa.Function) (bool, string) {
 	args := callArgs(cc)
 	isCopy := false
 	for _, cal := range a.Callees(cc) {
-		if cal.Name() == "copy" && cal.Pkg == a.pkg {
+		if cal.Name() == "copy" && a.inPkg(cal) {
 			isCopy = true
 		}
 	}
